@@ -10,7 +10,8 @@ Vocab == { T1(<<"W">>), T1(<<"1">>), T1(<<"0">>), T1(<<"v">>), T1(<<"q">>), T1(<
            T1(<<"1", "v">>), T1(<<"v", "W">>), T1(<<"W", "1">>),
            TTag, TIsTag, TWAll1, TWAll2, TQuiet1, TQuiet2,
            TW1, TW2, TW3,
-           Word("A"), Word("B"), Word("table"), <<"table", ",", "graph">> }
+           Word("A"), Word("B"), Word("table"), <<"table", ",", "graph">>,
+           <<"graph", ",">> }         \* a list that ends in a comma names an empty kind (which no assertion has)
 
 Prog == <<"prog">>
 
